@@ -247,6 +247,7 @@ thiserror! {
 }
 
 /// The parsing state for [`TimingPoints`] in [`DecodeBeatmap`].
+#[cfg_attr(rosu_map_verif, derive(Clone, Debug))]
 pub struct TimingPointsState {
     general: GeneralState,
     pending_control_points_time: f64,
